@@ -7,6 +7,8 @@ import (
 	"go/types"
 	"strings"
 
+	"golang.org/x/tools/go/cfg"
+
 	"dstverif/load"
 	"dstverif/schema"
 )
@@ -382,3 +384,196 @@ func (e *Env) RCommentsNotShared() {
 }
 
 func isSliceOf(x ast.Expr) bool { _, ok := x.(*ast.SliceExpr); return ok }
+
+// RCacheAfterSuccess: the shared resolver's per-file cache receives an entry only once the entry
+// is complete: no error return is reachable (CFG) after the store. Otherwise a failed resolution
+// leaves a partial import table behind and a retry with a working resolver silently uses it.
+func (e *Env) RCacheAfterSuccess() {
+	pkg := e.Prog.Pkg(load.PkgGoast)
+	info := pkg.TypesInfo
+	n := 0
+	for _, fd := range load.AllFuncDecls(pkg) {
+		if fd.Body == nil || fd.Recv == nil {
+			continue
+		}
+		recv := info.Defs[fd.Recv.List[0].Names[0]]
+		var stores []ast.Node
+		ast.Inspect(fd.Body, func(nd ast.Node) bool {
+			as, ok := nd.(*ast.AssignStmt)
+			if !ok {
+				return true
+			}
+			for _, l := range as.Lhs {
+				if ix, ok := l.(*ast.IndexExpr); ok {
+					if se, ok := ix.X.(*ast.SelectorExpr); ok {
+						if id, ok := se.X.(*ast.Ident); ok && info.Uses[id] == recv {
+							stores = append(stores, as)
+						}
+					}
+				}
+			}
+			return true
+		})
+		if len(stores) == 0 {
+			continue
+		}
+		g := cfg.New(fd.Body, func(*ast.CallExpr) bool { return true })
+		blockOf := func(p token.Pos) *cfg.Block {
+			for _, b := range g.Blocks {
+				for _, nd := range b.Nodes {
+					if nd.Pos() <= p && p < nd.End() {
+						return b
+					}
+				}
+			}
+			return nil
+		}
+		for _, st := range stores {
+			n++
+			sb := blockOf(st.Pos())
+			bad := token.NoPos
+			for _, b := range g.Blocks {
+				if !b.Live {
+					continue
+				}
+				for _, nd := range b.Nodes {
+					rs, ok := nd.(*ast.ReturnStmt)
+					if !ok || len(rs.Results) == 0 {
+						continue
+					}
+					last := rs.Results[len(rs.Results)-1]
+					if info.Types[last].IsNil() || !types.Identical(info.TypeOf(last), types.Universe.Lookup("error").Type()) {
+						continue
+					}
+					if sb != nil && (ancestors(g, b)[sb] || (b == sb && rs.Pos() > st.Pos())) {
+						bad = rs.Pos()
+					}
+				}
+			}
+			e.Run.Check("R-CACHE", fmt.Sprintf("%s: cache entry %s stored only after it is complete", load.FuncName(fd), types.ExprString(st.(*ast.AssignStmt).Lhs[0])), e.Prog.Pos(st.Pos()), bad == token.NoPos,
+				"an error return at "+e.Prog.Pos(bad)+" is reachable after the store: a resolution that fails half-way leaves a partial entry in the shared resolver, and a later retry (fresh decorator, same resolver, same file) silently uses it")
+		}
+	}
+	e.Run.Floor("R-CACHE", "cache stores in the shared resolver", n, 1)
+}
+
+// RParenSync: in updateImports, every import declaration whose spec list is changed also has its
+// Lparen/Rparen flags set: the restorer records the positions of "(" and ")" only when the flags
+// are true, while go/printer prints the parentheses whenever there is more than one spec.
+func (e *Env) RParenSync() {
+	pkg := e.Prog.Pkg(load.PkgDecorator)
+	info := pkg.TypesInfo
+	c := e.Sib.Ctx[load.PkgDecorator]
+	fd := load.FuncDecl(pkg, "FileRestorer", "updateImports")
+	if fd == nil || fd.Body == nil {
+		return
+	}
+	specsBase := map[string]token.Pos{}
+	flagBase := map[string]map[string]bool{}
+	isGenDecl := func(x ast.Expr) bool { _, n := namedOf(info.TypeOf(x)); return n == "GenDecl" }
+	record := func(l ast.Expr, p token.Pos) {
+		se, ok := l.(*ast.SelectorExpr)
+		if !ok || !isGenDecl(se.X) {
+			return
+		}
+		base := c.ExprStr(se.X)
+		switch se.Sel.Name {
+		case "Specs":
+			if _, seen := specsBase[base]; !seen {
+				specsBase[base] = p
+			}
+		case "Lparen", "Rparen":
+			if flagBase[base] == nil {
+				flagBase[base] = map[string]bool{}
+			}
+			flagBase[base][se.Sel.Name] = true
+		}
+	}
+	// helpers that set the flags for their argument (one level)
+	ast.Inspect(fd.Body, func(n ast.Node) bool {
+		switch x := n.(type) {
+		case *ast.AssignStmt:
+			for _, l := range x.Lhs {
+				record(l, x.Pos())
+			}
+		case *ast.CallExpr:
+			fn := c.Callee(x)
+			if fn == nil || fn.Pkg() != pkg.Types {
+				return true
+			}
+			for _, h := range load.AllFuncDecls(pkg) {
+				if info.Defs[h.Name] != types.Object(fn) || h.Body == nil {
+					continue
+				}
+				var params []types.Object
+				for _, p := range h.Type.Params.List {
+					for _, nm := range p.Names {
+						params = append(params, info.Defs[nm])
+					}
+				}
+				ast.Inspect(h.Body, func(m ast.Node) bool {
+					as, ok := m.(*ast.AssignStmt)
+					if !ok {
+						return true
+					}
+					for _, l := range as.Lhs {
+						se, ok := l.(*ast.SelectorExpr)
+						if !ok || (se.Sel.Name != "Lparen" && se.Sel.Name != "Rparen") {
+							continue
+						}
+						if id, ok := se.X.(*ast.Ident); ok {
+							for i, p := range params {
+								if info.Uses[id] == p && i < len(x.Args) && isGenDecl(x.Args[i]) {
+									base := c.ExprStr(x.Args[i])
+									if flagBase[base] == nil {
+										flagBase[base] = map[string]bool{}
+									}
+									flagBase[base][se.Sel.Name] = true
+								}
+							}
+						}
+					}
+					return true
+				})
+			}
+		}
+		return true
+	})
+	n := 0
+	for _, base := range sortedKeys(specsBase) {
+		n++
+		ok := flagBase[base]["Lparen"] && flagBase[base]["Rparen"]
+		e.Run.Check("R-PAREN", "updateImports: "+base+".Specs is changed and its Lparen/Rparen flags are set", e.Prog.Pos(specsBase[base]), ok,
+			"the spec list of "+base+" is modified but its parenthesis flags are never assigned: a declaration that grows from one spec to several keeps Lparen=false, the restored ast has NoPos for parentheses that are printed, and GenDecl.End() stops at the last spec")
+	}
+	e.Run.Floor("R-PAREN", "import declarations whose specs updateImports changes", n, 2)
+}
+
+// RHangGuard: in link(), the spoofed end indent of a clause without items is applied only when
+// the clause starts and ends on the same line.
+func (e *Env) RHangGuard() {
+	pkg := e.Prog.Pkg(load.PkgDecorator)
+	c := e.Sib.Ctx[load.PkgDecorator]
+	fd := load.FuncDecl(pkg, "fileDecorator", "link")
+	if fd == nil || fd.Body == nil {
+		return
+	}
+	n := 0
+	ast.Inspect(fd.Body, func(nd ast.Node) bool {
+		inc, ok := nd.(*ast.IncDecStmt)
+		if !ok || c.ExprStr(inc.X) != "end" || inc.Tok != token.INC {
+			return true
+		}
+		n++
+		pc, okp := pathCond(c, fd.Body.List, inc)
+		un, dec := unsatWith(pc, "start != end")
+		if !okp || !dec {
+			e.Run.Undecided("R-HANG", "link: the end indent is spoofed only for a clause that starts and ends on one line", e.Prog.Pos(inc.Pos()), "path condition outside the propositional subset: "+pc)
+			return true
+		}
+		e.Run.Check("R-HANG", "link: the end indent is spoofed only for a clause that starts and ends on one line", e.Prog.Pos(inc.Pos()), un,
+			"`end++` executes when «"+pc+"»; without the start == end test every clause with a body loses the hanging-indent handling and its trailing comments attach to the next clause")
+		return true
+	})
+	e.Run.Floor("R-HANG", "spoofed end indents in link", n, 1)
+}
